@@ -9,6 +9,7 @@ import (
 	"encoding/json"
 	"flag"
 	"fmt"
+	"net/url"
 	"os"
 	"path/filepath"
 	"reflect"
@@ -19,6 +20,7 @@ import (
 	"github.com/prometheus/client_golang/prometheus"
 	config_util "github.com/prometheus/common/config"
 	"github.com/prometheus/prometheus/config"
+	"github.com/prometheus/prometheus/model/labels"
 	pdiscovery "github.com/prometheus/prometheus/discovery"
 	"tkestack.io/kvass/pkg/prom"
 	"tkestack.io/kvass/pkg/sidecar"
@@ -102,7 +104,11 @@ func ijYAML(c *ijCase) string {
 	if len(c.Rw) > 0 {
 		b.WriteString("remote_write:\n")
 		for i, a := range c.Rw {
-			fmt.Fprintf(&b, "- url: http://rw%d.example/api/v1/write\n  remote_timeout: %ds\n  name: rw%d\n", i+1, 25+i, i+1)
+			ui := ""
+			if a == "userinfo" {
+				ui = fmt.Sprintf("writer:rw%d-ui@", i+1)
+			}
+			fmt.Fprintf(&b, "- url: http://%srw%d.example/api/v1/write\n  remote_timeout: %ds\n  name: rw%d\n", ui, i+1, 25+i, i+1)
 			b.WriteString(authYAML("  ", a, fmt.Sprintf("rw%d", i+1)))
 			b.WriteString("  write_relabel_configs:\n  - source_labels: [__name__]\n    regex: expensive_.*\n    action: drop\n")
 		}
@@ -110,7 +116,11 @@ func ijYAML(c *ijCase) string {
 	if len(c.Rr) > 0 {
 		b.WriteString("remote_read:\n")
 		for i, a := range c.Rr {
-			fmt.Fprintf(&b, "- url: http://rr%d.example/api/v1/read\n  remote_timeout: %ds\n  read_recent: true\n", i+1, 40+i)
+			ui := ""
+			if a == "userinfo" {
+				ui = fmt.Sprintf("reader:rr%d-ui@", i+1)
+			}
+			fmt.Fprintf(&b, "- url: http://%srr%d.example/api/v1/read\n  remote_timeout: %ds\n  read_recent: true\n", ui, i+1, 40+i)
 			b.WriteString(authYAML("  ", a, fmt.Sprintf("rr%d", i+1)))
 		}
 	}
@@ -179,9 +189,13 @@ func runInjectCase(file string, c *ijCase, n int) ijObs {
 	inj := sidecar.NewInjector(file, sidecar.InjectConfigOptions{ProxyURL: "http://127.0.0.1:8008", PrometheusURL: "http://127.0.0.1:9090", ShardMonitorEnable: selfMon},
 		prometheus.NewRegistry(), quietLog())
 	cm.AddReloadCallbacks(inj.ApplyConfig)
+	// a second target at the address, scheme and path of the first one: another module of a probe-style exporter
+	sameEndpoint := mkTarget(projAssign{Job: "job1", H: 11})
+	sameEndpoint.Hash = 15
+	sameEndpoint.Labels = append(sameEndpoint.Labels, labels.Label{Name: "__param_module", Value: "other"}, labels.Label{Name: "module", Value: "other"})
 	// assignment: job1 gets two targets, the second job (if any) none, plus targets of a job that does not exist
 	assign := map[string][]*target.Target{
-		"job1":      {mkTarget(projAssign{Job: "job1", H: 11, Series: 5, Total: 9}), mkTarget(projAssign{Job: "job1", H: 12, State: "in_transfer"})},
+		"job1":      {mkTarget(projAssign{Job: "job1", H: 11, Series: 5, Total: 9}), mkTarget(projAssign{Job: "job1", H: 12, State: "in_transfer"}), sameEndpoint},
 		"gone-job":  {mkTarget(projAssign{Job: "gone-job", H: 13})},
 		"empty-job": {},
 	}
@@ -355,10 +369,19 @@ func runInjectCase(file string, c *ijCase, n int) ijObs {
 		slots = append(slots, slotsOfHTTP("alerting", am.HTTPClientConfig)...)
 	}
 	slots = append(slots, o.Slots...)
+	urlSlot := func(sec string, u *config_util.URL) {
+		if u != nil && u.URL != nil && u.URL.User != nil {
+			if pw, ok := u.URL.User.Password(); ok {
+				slots = append(slots, ijSlot{sec, "url", pw})
+			}
+		}
+	}
 	for _, r := range gen.RemoteWriteConfigs {
+		urlSlot("rw", r.URL)
 		slots = append(slots, slotsOfHTTP("rw", r.HTTPClientConfig)...)
 	}
 	for _, r := range gen.RemoteReadConfigs {
+		urlSlot("rr", r.URL)
 		slots = append(slots, slotsOfHTTP("rr", r.HTTPClientConfig)...)
 	}
 	if slots == nil {
@@ -374,6 +397,11 @@ func dumpSecrets(v reflect.Value) string {
 	var b strings.Builder
 	var rec func(v reflect.Value, path string)
 	rec = func(v reflect.Value, path string) {
+		if v.IsValid() && v.Type() == reflect.TypeOf(url.URL{}) {
+			u := v.Interface().(url.URL)
+			fmt.Fprintf(&b, "%s=%q;", path, u.String()) // with the password of the userinfo, which reflection does not reach
+			return
+		}
 		switch v.Kind() {
 		case reflect.Ptr, reflect.Interface:
 			if !v.IsNil() {
